@@ -91,7 +91,32 @@ def run(ctx):
         if hit or excused:
             ctx.known("C18-stale-lastnop: WHERE/VARS hook closures keep lastNopToken across statements on one grammar value "
                       "(%d of %d histories; e.g. %r then %r)" % (len(excused), len(srows), wit[0], wit[1]))
-    allrows = len(rows) + len(hrows) + len(srows)
+    # 4. the look-ahead window of llk.go (model: coq/Grammar/LLk.v) vs the real LLk driven directly
+    lrows = c17.hparse(["-mode", "llk", "-n", "3000" if thorough else "150", "-seed", str(ctx.seed)])
+    lbad = []
+    eofk = None
+    for k in range(0, len(lrows), 150):
+        part = lrows[k:k + 150]
+        def nl(xs):
+            return "[" + ";".join(str(x) for x in xs) + "]"
+        def term(r):
+            toks = "[" + ";".join("(%d,%d)" % (a, b) for a, b in r["toks"]) + "]"
+            steps = "[" + ";".join("(%s,%s)" % ("true" if st["ok"] else "false", nl(st["win"])) for st in r["steps"]) + "]"
+            return "(%s, %d%%nat, %s, %s, %s)" % (toks, r["k"], nl(r["win0"]), nl(r["tys"]), steps)
+        v = c17.HEADER + "Definition cases : list llk_obs := [\n" + ";\n".join(term(r) for r in part) + "].\n"
+        v += "Definition M := Eval vm_compute in llk_mismatches tok_eof 0 cases.\nPrint M.\n"
+        out = vcheck.coq_eval(ctx.work, "cases_c18_llk_%d" % k, v)
+        lbad += [k + i for i in vcheck.parse_nat_list(out, "M")]
+    for i in lbad[:5]:
+        ctx.violation({"kind": "llk-window-model-vs-real-LLk", "case": {"text": lrows[i]["text"], "k": lrows[i]["k"], "tys": lrows[i]["tys"][:200],
+                                                                      "steps": lrows[i]["steps"][:200]},
+                       "explain": "Current/Peek/Consume of grammar.LLk differ from the window model over the lexer's token list"})
+    for r in lrows:
+        if not r["peek_ok"]:
+            ctx.violation({"kind": "llk-peek-range", "case": {"text": r["text"], "k": r["k"]},
+                           "explain": "Peek(j) failed for 1 <= j <= k, or succeeded for j = 0 or j = k+1"})
+            break
+    allrows = len(rows) + len(hrows) + len(srows) + len(lrows)
     ctx.cov["evaluations"] = allrows
     seen = set()
     for r in rows:
@@ -103,6 +128,9 @@ def run(ctx):
     for r in srows:
         if r["fresh"] != "ERR":
             seen.add(vcheck.case_hash(r["seq"]))
+    for r in lrows:
+        if len(r["toks"]) > 2:
+            seen.add(vcheck.case_hash([r["text"], r["k"], r["tys"]]))
     ctx.cov["distinct_nontrivial"] = len(seen)
     ctx.cov["rule"] = ("(1) grammar sentences, single-token mutations (insert/delete/replace/append after ';'/splice), random and "
                        "exhaustive short sequences over a 10-kind sub-alphabet, rendered to text, lexed and parsed by the real parser "
@@ -110,13 +138,18 @@ def run(ctx):
                        "dataAccumulator / collectGlobalBounds closures, several statements' worth per closure; non-trivial = some step "
                        "emits/sets/errors. (3) histories of 2-4 statements (25 realistic statements, all their token prefixes, grammar "
                        "witnesses) on one parser vs a fresh one, all (prefix, statement) pairs systematically; non-trivial = the last "
-                       "statement is accepted by a fresh parser. Distinct by hash.")
+                       "statement is accepted by a fresh parser. (4) grammar.NewLLk(text, k) for k = 1..3 over the statement corpus, grammar "
+                       "witnesses, statements of 130-1400 tokens, lexical-error texts and random derivations: Consume attempts (5/6 of "
+                       "the current type, 1/6 another type) until 3 steps past the end, window (Current, Peek(1..k): kind and text "
+                       "hash) after every step vs the Coq window model over the separately lexed token list. Distinct by hash.")
     ctx.cov["samples"] = [{"text": rows[0]["text"], "accepted": rows[0]["accepted"]}, hrows[0], srows[0]]
     ctx.cov["kinds"] = {k: sum(1 for r in rows if r["kind"] == k) for k in sorted(set(r["kind"] for r in rows))}
     ctx.cov["histories"] = len(srows)
     ctx.cov["determinism_statements"] = len(det)
     ctx.cov["histories_differing_excused_by_known_finding"] = len(excused)
     ctx.cov["hook_runs"] = len(hrows)
+    ctx.cov["llk_runs"] = len(lrows)
+    ctx.cov["llk_longest_statement_tokens"] = max((len(r["toks"]) for r in lrows), default=0)
     ctx.assumptions += ["statement meaning is compared through the exported accessors of semantic.Statement rendered as text",
                         "C18_stateless is partial: proved for the data accumulator and global-bound closures; the lastNopToken "
                         "closures are a known finding; closures without variables depend only on the fresh Statement"]
